@@ -121,7 +121,7 @@ func init() {
 			for i := range b {
 				b[i] = m.nondet("byte", fmt.Sprintf("%s[%d]", name, i), 8)
 			}
-			return StrV{b}
+			return StrV{B: b}
 		},
 		ZZ + "SliceInt": func(m *Machine, c *frame, fn *ssa.Function, a []Value) Value {
 			name := m.cstr(a[0], "SliceInt")
@@ -325,6 +325,36 @@ func init() {
 			return nil
 		},
 		"runtime.KeepAlive": func(m *Machine, c *frame, fn *ssa.Function, a []Value) Value { return nil },
+
+		// ---------------- iter.Pull: eager model (run the push iterator to completion into a buffer)
+		"iter.Pull": func(m *Machine, c *frame, fn *ssa.Function, a []Value) Value {
+			seq := a[0].(FuncV)
+			var buf []Value
+			yield := FuncV{Native: &NativeFn{Name: "iter.Pull.yield", F: func(m *Machine, c *frame, args []Value) Value {
+				buf = append(buf, args[0])
+				if len(buf) > 4096 {
+					m.end("bound", "iter.Pull over a sequence longer than 4096 (eager model)")
+				}
+				return m.S.True()
+			}}}
+			m.note("iter.Pull modelled eagerly: the push iterator runs to completion at Pull time (equivalent for finite, effect-free sequences)")
+			m.call(c, seq, []Value{yield}, 0)
+			pos := 0
+			vt := fn.Signature.Results().At(0).Type().(*types.Signature).Results().At(0).Type()
+			next := FuncV{Native: &NativeFn{Name: "iter.Pull.next", F: func(m *Machine, c *frame, args []Value) Value {
+				if pos < len(buf) {
+					v := buf[pos]
+					pos++
+					return TupleV{v, m.S.True()}
+				}
+				return TupleV{m.Zero(vt), m.S.False()}
+			}}}
+			stop := FuncV{Native: &NativeFn{Name: "iter.Pull.stop", F: func(m *Machine, c *frame, args []Value) Value {
+				pos = len(buf)
+				return nil
+			}}}
+			return TupleV{next, stop}
+		},
 
 		// ---------------- formatting (never the subject)
 		"fmt.Sprintf": func(m *Machine, c *frame, fn *ssa.Function, a []Value) Value { return m.MkStr("<fmt>") },
